@@ -56,6 +56,7 @@ func c03Scenarios() []c03Scen {
 		{Name: "S5 writer with a 2-statement transaction || read-only opener", Heads: [][]int{{1, 2}}, Progs: []c03Prog{{Name: "w", Clock: 1000, Steps: []c03Step{{Op: "open-rw"}, {Op: "tx", Keys: []int{31, 32}}, {Op: "insert", Keys: []int{13}}, {Op: "select"}}}, reader("r", 2000)}},
 		{Name: "S6 two writers || read-only opener", Tier: "thorough", Heads: [][]int{{1, 2}}, Progs: []c03Prog{wr("w", 1000, 11), wr("x", 1500, 21), reader("r", 2000)}},
 		{Name: "S7 writer || merging opener || read-only opener", Tier: "thorough", Heads: [][]int{{1}, {2}}, Progs: []c03Prog{wr("w", 1000, 11), {Name: "m", Clock: 1500, Steps: []c03Step{{Op: "open-rw"}, {Op: "select"}}}, reader("r", 2000)}},
+		{Name: "S9 writer (3 autocommit inserts) || read-only opener that refreshes once", Heads: [][]int{{1, 2}}, Progs: []c03Prog{wr("w", 1000, 11, 12, 13), {Name: "r", Clock: 2000, Steps: []c03Step{{Op: "open-ro"}, {Op: "select"}, {Op: "refresh"}, {Op: "select"}}}}},
 		{Name: "S8 writer || two successive read-only opens", Heads: [][]int{{1, 2}}, Progs: []c03Prog{wr("w", 1000, 11, 12), {Name: "r", Clock: 2000, Steps: []c03Step{{Op: "open-ro"}, {Op: "select"}, {Op: "close"}, {Op: "open-ro"}, {Op: "select"}}}}},
 	}
 }
